@@ -19,8 +19,8 @@ use redis_sim::redis::SDS;
 use redis_sim::replication::lattice::{GCounter, ReplicaId};
 use redis_sim::replication::state::{CrdtValue, ReplicatedValue, ReplicationDelta};
 use redis_sim::streaming::compaction::{CompactionConfig, Compactor};
-use redis_sim::streaming::{Compression, InMemoryObjectStore, ListResult, Manifest, ManifestManager, ObjectMeta, ObjectStore, RecoveryManager, SegmentInfo, SegmentWriter};
-use std::collections::{BTreeMap, HashSet};
+use redis_sim::streaming::{CheckpointConfig, CheckpointInfo, CheckpointManager, Compression, InMemoryObjectStore, ListResult, Manifest, ManifestManager, ObjectMeta, ObjectStore, RecoveryManager, SegmentInfo, SegmentWriter};
+use std::collections::{BTreeMap, HashMap, HashSet};
 use std::future::Future;
 use std::io::{Error as IoError, ErrorKind, Result as IoResult};
 use std::pin::Pin;
@@ -49,6 +49,7 @@ fn injected() -> IoError { IoError::new(ErrorKind::Other, "injected failure") }
 async fn recover_fold(store: &InMemoryObjectStore) -> Result<BTreeMap<String, (String, bool)>, String> {
     let st = RecoveryManager::new(store.clone(), PREFIX, 1).recover().await.map_err(|e| e.to_string())?;
     let mut m: BTreeMap<String, ReplicatedValue> = BTreeMap::new();
+    if let Some(cs) = &st.checkpoint_state { for (k, v) in cs { m.insert(k.clone(), v.clone()); } }     // apply_recovered_state installs the checkpoint first
     for d in &st.deltas {
         let v = match m.get(&d.key) { Some(old) => old.merge(&d.value), None => d.value.clone() };
         m.insert(d.key.clone(), v);
@@ -72,6 +73,18 @@ impl FaultStore {
     fn note(&self, when: String, observed: String, required: String) { let mut s = self.sh.lock().unwrap(); if s.violation.is_none() { s.violation = Some((when, observed, required)); } }
     async fn check_image(&self, when: String) {
         let reference = self.sh.lock().unwrap().reference.clone();
+        // every listed SegmentInfo tells the truth about the oldest stamp of its object (the tombstone rule reads it)
+        if let Ok(m) = ManifestManager::new(self.inner.clone(), PREFIX).load().await {
+            for seg in &m.segments {
+                if let Ok(bytes) = self.inner.get(&seg.key).await {
+                    if let Ok(r) = redis_sim::streaming::SegmentReader::open(&bytes) { if let Ok(ds) = r.read_all() {
+                        if let Some(d) = ds.iter().find(|d| d.value.timestamp.time < seg.min_timestamp) {
+                            self.note(when.clone(), format!("segment {} is listed with min_timestamp {} but holds {:?} stamped ({},{})", seg.key, seg.min_timestamp, d.key, d.value.timestamp.time, d.value.timestamp.replica_id.0), "SegmentInfo.min_timestamp <= every stamp in the segment (a later compaction decides from it whether an older value can resurface)".into());
+                        }
+                    } }
+                }
+            }
+        }
         match recover_fold(&self.inner).await {
             Err(e) => self.note(when, format!("RecoveryManager::recover failed: {}", e), "recovery succeeds on every store image compaction exposes (the manifest never references a missing or partially written object)".into()),
             Ok(now) => {
@@ -150,7 +163,7 @@ fn value(kind: u64, tomb: bool, t: u64, r: u64) -> ReplicatedValue {
         _ => { let mut g = GCounter::new(); g.increment_by(ReplicaId(r), t); let mut v = ReplicatedValue::with_crdt(CrdtValue::GCounter(g), ReplicaId(r)); v.timestamp = ts; v }
     }
 }
-struct Layout { segs: Vec<(Vec<ReplicationDelta>, bool)>, text: String }
+struct Layout { segs: Vec<(Vec<ReplicationDelta>, bool)>, text: String, ckpt: Vec<(String, ReplicatedValue)> }
 fn layout(rng: &mut Rng) -> Layout {
     let nseg = 2 + rng.below(5);
     let nkeys = 1 + rng.below(5);
@@ -177,11 +190,19 @@ fn layout(rng: &mut Rng) -> Layout {
         if ds.is_empty() { ds.push(ReplicationDelta::new(format!("solo{}", s), ReplicatedValue::with_value(SDS::from_str("s"), lc(90 + s, 2)), ReplicaId(2))); }
         segs.push((ds, big));
     }
-    Layout { segs, text: text.join("; ") }
+    // one layout in four has a checkpoint holding an OLDER value (stamp time 0) of some LWW keys: what a tombstone must keep shadowing
+    let mut ckpt = Vec::new();
+    if rng.chance(1, 4) {
+        for ki in 0..nkeys { if kind_of(ki) == 0 && rng.chance(1, 2) { ckpt.push((format!("k{}", ki), ReplicatedValue::with_value(SDS::from_str(&format!("ckpt{}", ki)), lc(0, 1)))); text.push(format!("checkpoint: k{} SET@(0,1)", ki)); } }
+    }
+    Layout { segs, text: text.join("; "), ckpt }
 }
 async fn install(store: &InMemoryObjectStore, l: &Layout) {
     let mut m = Manifest::new(1);
+    // with a checkpoint the segment ids start at 1: the checkpoint "covers" segment 0, which is gone (last_segment_id cannot say "covers nothing")
+    let first = if l.ckpt.is_empty() { 0 } else { 1 };
     for (id, (ds, _)) in l.segs.iter().enumerate() {
+        let id = id + first;
         let key = format!("{}/segments/segment-{:08}.seg", PREFIX, id);
         let mut w = SegmentWriter::new(Compression::None);
         let (mut lo, mut hi) = (u64::MAX, 0u64);
@@ -191,7 +212,16 @@ async fn install(store: &InMemoryObjectStore, l: &Layout) {
         m.add_segment(SegmentInfo { id: id as u64, key, record_count: ds.len() as u32, size_bytes: data.len() as u64, min_timestamp: lo, max_timestamp: hi });
         m.next_segment_id = id as u64 + 1;
     }
-    ManifestManager::new(store.clone(), PREFIX).save(&m).await.unwrap();
+    let mm = ManifestManager::new(store.clone(), PREFIX);
+    mm.save(&m).await.unwrap();
+    if !l.ckpt.is_empty() {
+        let state: HashMap<String, ReplicatedValue> = l.ckpt.iter().cloned().collect();
+        let cm = CheckpointManager::new(Arc::new(store.clone()), PREFIX.to_string(), mm.clone(), CheckpointConfig::test());
+        let res = cm.create_checkpoint(state, 0).await.unwrap();
+        m.checkpoint = Some(CheckpointInfo { key: res.key.clone(), timestamp_ms: res.timestamp_ms, key_count: res.key_count, last_segment_id: res.last_segment_id });
+        m.version += 1;
+        mm.save(&m).await.unwrap();
+    }
 }
 
 async fn run(lseed: u64, faults: Vec<Fault>, passes: usize, ttl: Duration) -> (Option<Found>, u64) {
@@ -222,7 +252,7 @@ async fn run(lseed: u64, faults: Vec<Fault>, passes: usize, ttl: Duration) -> (O
 /// witness of the open finding: the TTL half of the drop rule
 async fn ttl_witness() -> Option<Found> {
     let store = InMemoryObjectStore::new();
-    let l = Layout { segs: vec![(vec![ReplicationDelta::new("k".into(), value(0, false, 1, 1), ReplicaId(1))], false), (vec![ReplicationDelta::new("k".into(), value(0, true, 50, 1), ReplicaId(1))], false)], text: String::new() };
+    let l = Layout { segs: vec![(vec![ReplicationDelta::new("k".into(), value(0, false, 1, 1), ReplicaId(1))], false), (vec![ReplicationDelta::new("k".into(), value(0, true, 50, 1), ReplicaId(1))], false)], text: String::new(), ckpt: Vec::new() };
     install(&store, &l).await;
     let mut cfg = CompactionConfig::test();
     cfg.tombstone_ttl = Duration::from_secs(24 * 3600);
